@@ -428,6 +428,10 @@ def profile_cases(draw):
         else:
             j = draw(st.integers(3, 21))
             spec["p_trop"] = float(grid(spec, 25)[j])
+            # the layer above the kink is not colder than 150 K
+            kmax = float(np.log(spec["T0"] / 150.0)
+                         / np.log(p0 / spec["p_trop"]))
+            spec["kappa"] = min(spec["kappa"], kmax)
     if q_family == "power":
         spec["x0"] = draw(st.floats(1e-4, 0.04, allow_nan=False))
         spec["k"] = draw(st.floats(1.0, 4.0, allow_nan=False))
